@@ -35,6 +35,15 @@ pub fn resolve_res(
                     report,
                     ast_res.expr.span())?,
                 
+            // A failed assertion cannot be guessed away:
+            // once guessing is over, it is an error
+            expr::Value::FailedConstraint(msg)
+                if ctx.is_last_iteration =>
+            {
+                report.message(msg);
+                return Err(());
+            }
+
             _ => 0,
         }
     };
